@@ -33,14 +33,15 @@ def bounds(tier):
     return {"candidates": PLAN[tier]["ns"], "reapplication_lattice (n, max ballots)": PLAN[tier]["reapply"], "contests_per_file": [1, 2]}
 
 
-def raire_file_text(contests):
-    """contests: list of (cid, n, [(ballot_id, ranking tuple)])"""
+def raire_file_text(contests, blank_trailing_comma=False):
+    """contests: list of (cid, n, [(ballot_id, ranking tuple)]); blank ballots may be written 'contest,ballot,' (as the RAIRE
+    files shipped with the library write them) instead of 'contest,ballot'"""
     lines = [str(len(contests))]
     for cid, n, _ in contests:
         lines.append(",".join(["Contest", cid, str(n)] + [s2r.NAMES[c] for c in range(n)] + ["winner", s2r.NAMES[0]]))
     for cid, n, rows in contests:
         for bid, r in rows:
-            lines.append(",".join([cid, bid] + [s2r.NAMES[c] for c in r]))
+            lines.append(",".join([cid, bid] + [s2r.NAMES[c] for c in r]) + ("," if (blank_trailing_comma and not r) else ""))
     return "\n".join(lines) + "\n"
 
 
@@ -204,7 +205,7 @@ def reader_cases(n):
              ("con1", n, [(f"b{i}", r) for i, r in enumerate(rot)])]
     # a ballot identifier repeated inside one contest (a re-scanned / corrected record): the later row stands
     rep = [("con1", n, [(f"b{i}", r) for i, r in enumerate(alpha)] + [(f"b{i}", alpha[(i * 3 + 1) % len(alpha)]) for i in range(0, len(alpha), 3)])]
-    out = {"one": one, "two-shared-ids": two, "two-reversed-header": inter, "id-repeated-in-contest": rep}
+    out = {"one": one, "two-shared-ids": two, "two-reversed-header": inter, "id-repeated-in-contest": rep, "one-blank-ballots-with-trailing-comma": one}
     if n == 3:  # thousands of rows: every ballot's two rows are thousands of lines apart, some identifiers come back much later
         K = 7000
         out["two-shared-ids-thousands-of-rows"] = [
@@ -215,7 +216,7 @@ def reader_cases(n):
 
 def judge_readers(n, layout):
     spec = reader_cases(n)[layout]
-    text = raire_file_text(spec)
+    text = raire_file_text(spec, blank_trailing_comma=layout.endswith("trailing-comma"))
     try:
         cvs, n_read, n_unique, contests, rcvrs = read_both(text)
     except Exception as e:  # noqa
